@@ -228,13 +228,23 @@ def _learn(case, res):
         # (a training accuracy for a log line, a sanity check on other data) is not an iteration
         lab = args[0] if args else kwargs.get("labels")
         try:
-            on_validation = [int(v) for v in np.asarray(lab).ravel()] == [int(v) for v in YV]
+            lab = [int(v) for v in np.asarray(lab).ravel()]
+            # validation-sized label vector (the implementation may work on its own copies, so the content need not be the caller's array at
+            # this moment); when both sets have the same size only the caller's current validation labels qualify
+            on_validation = len(lab) == len(YV) and (len(YV) != len(Y) or lab == [int(v) for v in YV])
         except Exception:  # noqa: BLE001
             on_validation = False
         if not on_validation:
             rec.add("other_accuracy_call", 1)
             return
-        rec.add("iter", {"acc": float(result), "snap": forest_snapshot(m), "feat": _features_fp(m)})
+        obj = last_predictor[0] if last_predictor[0] is not None and getattr(last_predictor[0], "subgraph", None) is not None else m
+        # the candidate is the classifier that has just predicted the validation set - the object itself or a scratch classifier
+        rec.add("iter", {"acc": float(result), "snap": forest_snapshot(obj), "feat": _features_fp(obj)})
+
+    last_predictor = [None]
+
+    def after_predict(rec, args, kwargs, result):
+        last_predictor[0] = args[0]
 
     np.random.seed(case["rng_seed"])
     real_uniform = np.random.uniform
@@ -248,7 +258,8 @@ def _learn(case, res):
         np.random.uniform = extreme_uniform
         res.see("extreme_rng_outcomes")
     try:
-        with hooks.patched(rec, [(g, "opf_accuracy", None, after_acc)]):
+        import opfython.models.supervised as mv_
+        with hooks.patched(rec, [(g, "opf_accuracy", None, after_acc), (mv_.SupervisedOPF, "predict", None, after_predict)]):
             call = safe_call(m.learn, X, Y, V, YV, case["iters"])
     finally:
         np.random.uniform = real_uniform
